@@ -92,11 +92,37 @@ pub fn enumerate(spec: &str, ks: Option<Vec<usize>>, threads: usize, watch_all: 
     (nsys, r)
 }
 
+/// protocol stream: which protocol each call of `spec` must follow (class numbers of Coq's `classify`)
+pub fn proto_cases(spec: &str, w: &mut dyn std::io::Write) {
+    let d = tempfile::tempdir().unwrap();
+    let traces = protocol_traces(d.path(), spec);
+    let acks = std::fs::read_to_string(d.path().join("ack.txt")).unwrap_or_default();
+    let flags: Vec<(bool, String)> = acks.lines().filter_map(|l| { let mut it = l.split(' '); let i = it.next()?; i.parse::<usize>().ok()?; let ok = it.next()? == "ok"; Some((ok, it.next().unwrap_or("---").to_string())) }).collect();
+    let ops = parse_ops(spec);
+    for (i, op) in ops.iter().enumerate() {
+        let Some(tr) = traces.get(i + 1) else { continue };
+        let Some((ok, fl)) = flags.get(i) else { continue };
+        if !ok { continue; }
+        let (grew, auto, pend) = (fl.contains('g'), fl.contains('a'), fl.contains('p'));
+        let expected: u128 = match op {
+            Op::Put { .. } | Op::Update { .. } | Op::Delete { .. } => if grew { 3 } else if auto { 4 } else { 1 },
+            Op::Commit => if pend { 2 } else { 0 },
+            Op::Reopen => if pend { 2 } else { 0 },
+            Op::Vacuum => 3,
+            _ => 3,
+        };
+        let kind = match op { Op::Put { .. } => "put", Op::Update { .. } => "update", Op::Delete { .. } => "delete", Op::Commit => "commit", Op::Reopen => "reopen", Op::Vacuum => "vacuum", _ => "other" };
+        let input = T::L(tr.iter().enumerate().map(|(k, o)| fsop_term(o, k)).collect());
+        emit(w, "proto", &Case { input, output: T::N(expected), violation: None, nontrivial: expected != 0, tags: vec![format!("{}:class{}", kind, expected)], key: format!("{}@{}:{:?}", spec, i, tr.len()) });
+    }
+}
+
 pub const QUICK_SPECS: &[&str] = &["pb300,pb400,c,pb100", "pb500,c,u0,d0,c", "g66000,pb10,c"];
 
 pub fn run(seed: u64, n: usize, tier: &str, w: &mut dyn std::io::Write) {
     let mut r = Rng::new(seed ^ 0xC02);
     let specs: Vec<String> = if tier == "thorough" { QUICK_SPECS.iter().map(|s| s.to_string()).chain(["pt600,c,pc3000,c".to_string(), "pb30000,pb22000,pb100,c".to_string(), "pb100,c,r,pb200,u0,c,v".to_string()]).collect() } else { QUICK_SPECS.iter().map(|s| s.to_string()).collect() };
+    for spec in specs.iter().cloned().chain(["pb300,pb400,c,pb100,u0,d1,c,r,pt800,c,c,v,pb30000,pb25000,g66000,c".to_string()]) { proto_cases(&spec, w); }
     for spec in specs {
         // quick: a sample of at most n kill points per history (first 40 + random), thorough: all
         let probe_dir = tempfile::tempdir().unwrap();
